@@ -21,12 +21,16 @@ void worker_t::operator()() const
 
         // wait for a new task to be available in the queue
         {
+            NANO_VERIF_YIELD(10);
             std::unique_lock lock(m_queue.m_mutex);
+            NANO_VERIF_EMIT("Locked", static_cast<int64_t>(m_tnum));
 
             m_queue.m_condition.wait(lock, [&] { return m_queue.m_stop || !m_queue.m_tasks.empty(); });
+            NANO_VERIF_EMIT("Woke", static_cast<int64_t>(m_tnum));
 
             if (m_queue.m_stop)
             {
+                NANO_VERIF_EMIT("StopSeen", static_cast<int64_t>(m_tnum), static_cast<int64_t>(m_queue.m_tasks.size()));
                 m_queue.m_tasks.clear();
                 m_queue.m_condition.notify_all();
                 break;
@@ -34,7 +38,9 @@ void worker_t::operator()() const
 
             task = std::move(m_queue.m_tasks.front());
             m_queue.m_tasks.pop_front();
+            NANO_VERIF_EMIT("Pop", static_cast<int64_t>(m_tnum), static_cast<int64_t>(m_queue.m_tasks.size()));
         }
+        NANO_VERIF_YIELD(11);
 
         // execute the task
         task(m_tnum);
@@ -78,6 +84,12 @@ pool_t::pool_t(const size_t threads)
 
 size_t pool_t::max_size()
 {
+#ifdef NANO_VERIF
+    if (const auto cap = verif::max_threads(); cap > 0U)
+    {
+        return std::max(size_t(1), std::min(cap, static_cast<size_t>(std::thread::hardware_concurrency())));
+    }
+#endif
     return std::max(size_t(1), static_cast<size_t>(std::thread::hardware_concurrency()));
 }
 
@@ -86,11 +98,15 @@ pool_t::~pool_t()
     {
         const std::scoped_lock lock(m_queue.m_mutex);
         m_queue.m_stop = true;
+        NANO_VERIF_EMIT("StopSet");
     }
+    NANO_VERIF_YIELD(20);
     m_queue.m_condition.notify_all();
+    NANO_VERIF_EMIT("NotifyStop");
 
     for (auto& thread : m_threads)
     {
         thread.join();
     }
+    NANO_VERIF_EMIT("Joined", static_cast<int64_t>(m_threads.size()));
 }
